@@ -6,12 +6,12 @@
 (* is complete (a final drain is implied).                                 *)
 (***************************************************************************)
 EXTENDS Discovery, Json
-CONSTANTS Agents, Comps, MaxLen, Exhaustive
+CONSTANTS Agents, Comps, MaxLen, Exhaustive, WithDeliveries
 VARIABLES s, hist
 
 Chans == {[k |-> "dl", a |-> a, c |-> d] : a \in Agents, d \in {"up", "down"}}   \* up: a -> directory, down: directory -> a
-Ops == {[k |-> k, a |-> a, c |-> c] : k \in OpKinds, a \in Agents, c \in Comps} \cup Chans
-       \cup {[k |-> "drain", a |-> "", c |-> ""]}
+Ops == {[k |-> k, a |-> a, c |-> c] : k \in OpKinds, a \in Agents, c \in Comps}
+       \cup (IF WithDeliveries THEN Chans \cup {[k |-> "drain", a |-> "", c |-> ""]} ELSE {})
 Init == s = InitS(Agents, Comps) /\ hist = <<>>
 Next == /\ Len(hist) < MaxLen
         /\ \E op \in Ops : /\ Enabled(s, op)
